@@ -218,13 +218,13 @@ E(vp_h15b_dur_ms32_s, (prop_add_dur<ms32_t, chr::seconds>(in, out)))
 //@ OBL {"name": "h15b_dur_ms32_s", "prop": "vp_h15b_dur_ms32_s", "in": 16, "out": 16, "unwind": 6, "backends": ["kissat", "default", "cvc5", "z3"], "cap_s": 900, "bounds": "full width", "desc": "SafeAddDuration(duration<int32,milli>, seconds)"}
 //@ OBL {"name": "h15c_frac", "prop": "vp_h15c_frac", "out": 16, "unwind": 14, "backends": ["kissat", "default", "cvc5", "z3"], "cap_s": 900, "assume": "va_h15c", "in": 12, "bounds": "every string of length <= 3 (division by the symbolic value: longer inputs do not close; thorough: 4)", "desc": "ParseSecondFractions: 1..9 digits exact nanoseconds, otherwise failure", "cassume": ["in[0] <= 3"]}
 //@ OBL {"name": "h15d_s", "prop": "vp_h15d_s", "out": 16, "unwind": 8, "backends": ["kissat", "default", "cvc5", "z3"], "cap_s": 900, "in": 20, "bounds": "20-character buffers 20??-??-??T??:??:??? with the 13 remaining characters arbitrary (thorough: all 15 non-separator characters arbitrary)", "desc": "To(string_view, time_point<seconds>&): calendar-valid -> exact reference instant; out-of-range fields (incl. Feb 29 of non-leap years) -> invalid_argument", "cassume": ["in[4]=='-' && in[7]=='-' && in[10]=='T' && in[13]==':' && in[16]==':'", "in[0]=='2' && in[1]=='0'"]}
-//@ OBL {"name": "h15d_s_T", "prop": "vp_h15d_s", "out": 16, "unwind": 8, "backends": ["kissat", "default", "cvc5", "z3"], "cap_s": 3600, "in": 20, "bounds": "every 20-character buffer with the five separators in place and ALL 15 other characters arbitrary (digits or not, 'Z' or not)", "desc": "To(string_view, time_point<seconds>&): calendar-valid -> exact reference instant; out-of-range fields (incl. Feb 29 of non-leap years) -> invalid_argument", "cassume": ["in[4]=='-' && in[7]=='-' && in[10]=='T' && in[13]==':' && in[16]==':'"], "tier": "thorough", "supersedes": "h15d_s"}
-//@ OBL {"name": "h15f_dur", "prop": "vp_h15f_dur", "out": 16, "unwind": 10, "backends": ["kissat", "default", "cvc5", "z3"], "cap_s": 3600, "assume": "va_h15f", "in": 9, "bounds": "every string of length <= 6", "desc": "To(string_view, duration<seconds>&) == reference ISO duration parser (value / invalid_argument / out_of_range)", "cassume": ["in[0] <= 6"], "tier": "thorough"}
-//@ OBL {"name": "h15f_dur_T", "prop": "vp_h15f_dur", "out": 16, "unwind": 10, "backends": ["kissat", "default", "cvc5", "z3"], "cap_s": 3600, "assume": "va_h15f", "in": 9, "bounds": "every string of length <= 8", "desc": "To(string_view, duration<seconds>&) == reference ISO duration parser (value / invalid_argument / out_of_range)", "cassume": [], "tier": "thorough", "supersedes": "h15f_dur"}
+//@ OBL {"name": "h15d_s_T", "prop": "vp_h15d_s", "out": 16, "unwind": 8, "backends": ["kissat", "default", "cvc5", "z3"], "cap_s": 3600, "in": 20, "bounds": "every 20-character buffer with the five separators in place and ALL 15 other characters arbitrary (digits or not, 'Z' or not)", "desc": "To(string_view, time_point<seconds>&): calendar-valid -> exact reference instant; out-of-range fields (incl. Feb 29 of non-leap years) -> invalid_argument", "cassume": ["in[4]=='-' && in[7]=='-' && in[10]=='T' && in[13]==':' && in[16]==':'"], "tier": "open", "supersedes": "h15d_s"}
+//@ OBL {"name": "h15f_dur", "prop": "vp_h15f_dur", "out": 16, "unwind": 10, "backends": ["kissat", "default", "cvc5", "z3"], "cap_s": 3600, "assume": "va_h15f", "in": 9, "bounds": "every string of length <= 6", "desc": "To(string_view, duration<seconds>&) == reference ISO duration parser (value / invalid_argument / out_of_range)", "cassume": ["in[0] <= 6"], "tier": "open"}
+//@ OBL {"name": "h15f_dur_T", "prop": "vp_h15f_dur", "out": 16, "unwind": 10, "backends": ["kissat", "default", "cvc5", "z3"], "cap_s": 3600, "assume": "va_h15f", "in": 9, "bounds": "every string of length <= 8", "desc": "To(string_view, duration<seconds>&) == reference ISO duration parser (value / invalid_argument / out_of_range)", "cassume": [], "tier": "open", "supersedes": "h15f_dur"}
 //@ OBL {"prop": "vp_h15e_s", "assume": "va_fields", "in": 8, "out": 16, "unwind": 8, "backends": ["kissat", "default"], "cap_s": 900, "name": "h15e_s", "cassume": ["RD16(in,0) >= 1896 && RD16(in,0) <= 2104"], "bounds": "years 1896..2104, every 00..99 value in each other field", "desc": "To(string_view, time_point<seconds>&) on rendered text: denoted instant (independent reference), invalid_argument for impossible dates, out_of_range"}
 //@ OBL {"prop": "vp_h15e_s", "assume": "va_fields", "in": 8, "out": 16, "unwind": 8, "backends": ["kissat", "default"], "cap_s": 900, "name": "h15e_s_neg", "cassume": ["RD16(in,0) >= -404 && RD16(in,0) <= -396"], "bounds": "years -0404..-0396", "desc": "same, negative years around a 400-year boundary"}
-//@ OBL {"prop": "vp_h15e_ms", "assume": "va_fields", "in": 8, "out": 16, "unwind": 8, "backends": ["kissat", "default"], "cap_s": 3600, "name": "h15e_ms", "cassume": ["RD16(in,0) >= 1896 && RD16(in,0) <= 2104"], "bounds": "years 1896..2104", "desc": "same into a milliseconds based time point (multiplication by 1000, overflow impossible in window)", "tier": "thorough"}
-//@ OBL {"prop": "vp_h15e_s", "assume": "va_fields", "in": 8, "out": 16, "unwind": 8, "backends": ["kissat", "default"], "cap_s": 3600, "name": "h15e_s_T", "tier": "thorough", "supersedes": "h15e_s", "bounds": "years -9999..9999", "desc": "same, full 4-digit year range"}
+//@ OBL {"prop": "vp_h15e_ms", "assume": "va_fields", "in": 8, "out": 16, "unwind": 8, "backends": ["kissat", "default"], "cap_s": 3600, "name": "h15e_ms", "cassume": ["RD16(in,0) >= 1896 && RD16(in,0) <= 2104"], "bounds": "years 1896..2104", "desc": "same into a milliseconds based time point (multiplication by 1000, overflow impossible in window)", "tier": "open"}
+//@ OBL {"prop": "vp_h15e_s", "assume": "va_fields", "in": 8, "out": 16, "unwind": 8, "backends": ["kissat", "default"], "cap_s": 3600, "name": "h15e_s_T", "tier": "open", "supersedes": "h15e_s", "bounds": "years -9999..9999", "desc": "same, full 4-digit year range"}
 //@ VEC * 0000000000000000000000000000000000000000
 //@ VEC * 323032332d30322d32395430303a30303a30305a
 //@ VEC * 323032342d30322d32395432333a35393a35395a
